@@ -306,35 +306,73 @@ def run(ctx):
                "WriteAheadLog::new can succeed without repair()", b.where)
     b = ctx.anchor("R01f", WAL + "::repair")
     if b:
+        # scope: repair and the private helpers of WriteAheadLog it calls (the scan step may live in a helper)
+        scope = [b]
+        for _ in range(2):
+            for sb in list(scope):
+                for i, t in cfg.calls(sb):
+                    n = common.norm(cfg.callee(t) or "")
+                    hb = fa.body(n)
+                    if hb is not None and n.startswith(WAL + "::") and hb not in scope and n not in (WAL + "::skip_record", WAL + "::read_exact"):
+                        scope.append(hb)
+        sk = [(sb, i, t) for sb in scope for i, t in cfg.calls(sb) if cfg.callee(t) == WAL + "::skip_record"]
         sl = cfg.call_blocks(b, ["std::fs::File::set_len"])
-        sk = [(i, t) for i, t in cfg.calls(b) if cfg.callee(t) == WAL + "::skip_record"]
-        ok = False
-        detail = "repair no longer truncates at the last complete record"
-        if sk and sl:
-            # the error edge of skip_record (is_err() == true) must lead to set_len before returning
-            ie = [(i, t) for i, t in cfg.calls(b) if (cfg.callee(t) or "").endswith("::is_err")]
-            sws = []
-            for i, t in ie:
-                sws += cfg.bool_switches(b, cfg.derived_locals(b, [t["d"][0]]))
-            gt = []
-            for bi, s in cfg.assigns(b):
-                r = s["r"]
-                if r["k"] == "bin" and r["op"] in ("Gt", "Lt", "Ge", "Le") and len(s["l"]) == 1 and bi not in (0,):
-                    for sw in cfg.bool_switches(b, cfg.derived_locals(b, [s["l"][0]])):
-                        gt.append(sw)
-            rets = cfg.return_blocks(b)
-            ok = bool(sws)
-            for sw in sws:
-                start = sw["true_edge"][1]
-                okp, p = cfg.must_pass(b, [start], sl, rets)
-                ok = ok and okp
-            detail = "a failed skip_record leads to set_len(pos) before return (torn tail discarded)"
-            # over-long record: some comparison guards a second set_len
-            ok2 = len(sl) >= 2 or any(cfg.must_pass(b, [g["true_edge"][1]], sl, rets)[0] for g in gt)
-            ok = ok and ok2
-            if not ok:
-                detail = "a torn or over-long trailing WAL record is not truncated on every path"
-        ctx.ob("R01f", "WriteAheadLog::repair:truncate-torn-tail", ok, detail, b.where)
+        # (1) an unreadable trailing record is not an error of the open: skip_record's result is inspected, never `?`-ed
+        prop = [sb.loc(i) for sb, i, t in sk if cfg.try_edges(sb, cfg.derived_locals(sb, [t["d"][0]]))]
+        ctx.ob("R01f", "WriteAheadLog::repair:torn-record-is-not-an-error", bool(sk) and not prop,
+               "the result of skip_record is inspected (%d call), not propagated" % len(sk) if sk and not prop else
+               "repair propagates a failing skip_record with `?` (%s): a torn log tail makes the database unopenable" % prop
+               if sk else "repair no longer scans the log with skip_record", b.where)
+        # (2) every way out of the scan loop other than `pos < size` becoming false or an I/O error truncates the log
+        scan = common.call_blocks_reaching(fa, b, [WAL + "::skip_record"])
+        loops = [c for c in cfg.sccs(b) if any(x in c for x in scan)]
+        okb, errb, unk = cfg.ret_class_blocks(b)
+        ok2 = len(loops) == 1 and bool(sl)
+        bad_exits = []
+        if ok2:
+            comp = loops[0]
+            preds = cfg.all_pred(b)
+            headers = [x for x in comp if any(p_ not in comp for p_ in preds[x])]
+            callblocks = [x for x in comp if b.blocks[x]["term"]["k"] == "call" and not cfg.is_transparent(cfg.callee(b.blocks[x]["term"]) or "")]
+            for u in sorted(comp):
+                for v in cfg.succs(b, u):
+                    if v in comp:
+                        continue
+                    if cfg.find_path(b, [v], okb + unk) is None:
+                        continue            # leaves only towards an error return (I/O error)
+                    if b.blocks[u]["term"]["k"] == "switch" and cfg.find_path(b, headers, [u], avoid=callblocks) is not None:
+                        continue            # the loop condition itself
+                    if cfg.must_pass(b, [v], sl, okb + unk)[0]:
+                        continue            # truncates before returning
+                    bad_exits.append("%s->%s" % (b.loc(u), b.loc(v)))
+        ctx.ob("R01f", "WriteAheadLog::repair:truncate-torn-tail", ok2 and not bad_exits,
+               "every early exit of the scan loop truncates the log at the last complete record" if ok2 and not bad_exits else
+               "repair can stop scanning without truncating the log at the last complete record (exits %s; set_len calls %d)" % (
+                   bad_exits, len(sl)), b.where)
+        # (3) a record that claims to end beyond the log is torn too: the position after a skipped record is compared
+        sp = [(sb, i, t) for sb in scope for i, t in cfg.calls(sb) if (cfg.callee(t) or "").endswith("::stream_position")]
+        cmpd = False
+        # (the loop condition `pos < size` does not count: it tests the position already accepted)
+        pos_roots = {(cfg.op_origin(b, b.blocks[x]["term"]["a"][1]) or (None,))[0] for x in sl}
+        for sb, i, t in sp:
+            der = cfg.derived_locals(sb, [t["d"][0]])
+            for bi, st in cfg.assigns(sb):
+                r = st["r"]
+                if r["k"] == "bin" and r["op"] in ("Gt", "Lt", "Ge", "Le"):
+                    for o in (r["a"], r["b"]):
+                        pl = cfg.op_place(o)
+                        if pl and pl[0] in der and not (sb is b and cfg.origin(sb, pl)[0] in pos_roots):
+                            cmpd = True
+        ctx.ob("R01f", "WriteAheadLog::repair:over-long-record", cmpd,
+               "the position after a skipped record is compared with the log size" if cmpd else
+               "repair no longer compares the position after a skipped record with the log size: an over-long (torn) "
+               "record is accepted", b.where)
+        # (4) the truncation point is the scan position, not the log size
+        szl = [t["d"][0] for i, t in cfg.calls(b) if (cfg.callee(t) or "").endswith("Seek>::seek") or (cfg.callee(t) or "").endswith("::seek")]
+        szd = cfg.derived_locals(b, szl) if szl else {}
+        okp = bool(sl) and all((cfg.op_origin(b, b.blocks[x]["term"]["a"][1]) or (None,))[0] not in szd for x in sl)
+        ctx.ob("R01f", "WriteAheadLog::repair:truncates-at-scan-position", okp,
+               "set_len receives the scan position" if okp else "repair truncates to a value derived from the log size", b.where)
 
     # ---------------- R01g (shared with C32): success pairing
     common.pair_rule(ctx, "R01g", classes=("success",))
